@@ -49,4 +49,24 @@ theorem duplicate_resent (fmt rpni : Nat) (b : Bool) (h1 : fmt ≠ fATN) (h3 : f
     tgtDecide fmt rpni (some rpni) b = .resend := by
   unfold tgtDecide; simp [h1, h3]
 
+/-- what `send_dep_res_recv_dep_req` does with a received request -/
+inductive TgtOuter
+  /-- not for this device / not a data exchange PDU: nothing is sent, keep waiting -/
+  | ignore
+  /-- DSL_REQ / RLS_REQ: answer it and leave `exchange` with None -/
+  | leave
+  /-- DEP_REQ: see `TgtAct` -/
+  | dep (a : TgtAct)
+  deriving DecidableEq, Repr
+
+def tgtDispatch (didMismatch isDsl isRls isDep : Bool) (fmt rpni : Nat) (pni : Option Nat) (rtoxPending : Bool) : TgtOuter :=
+  if didMismatch then .ignore
+  else if isDsl || isRls then .leave
+  else if isDep then .dep (tgtDecide fmt rpni pni rtoxPending)
+  else .ignore
+
+/-- a request for another device identifier is never handed to `exchange` nor answered -/
+theorem other_did_ignored (isDsl isRls isDep : Bool) (fmt rpni : Nat) (pni : Option Nat) (b : Bool) :
+    tgtDispatch true isDsl isRls isDep fmt rpni pni b = .ignore := rfl
+
 end NfcVerif.DepPduRef
